@@ -27,6 +27,7 @@ def showRes : Res Nat → String
   | .pair k v => s!"{k}:{v}"
   | .eexist => "EEXIST"
   | .enoent => "ENOENT"
+  | .failed => "CBFAIL"
 
 def showKvs (l : List (Nat × Nat)) : String :=
   joinWith "," (l.map fun (k, v) => s!"{k}:{v}")
@@ -43,7 +44,7 @@ def iterN (it : Itr Nat) : Nat → List (Nat × Nat) × Bool
 def step (s : Option Tr) (line : String) : Option Tr × String :=
   match words line, s with
   | ["new", k], _ => match k.toNat? with
-    | some k => if k < 4 then (some .nil, "ok") else (s, "bad-op")
+    | some k => if k < 5 then (some .nil, "ok") else (s, "bad-op")
     | none => (s, "bad-op")
   | _, none => (s, "bad-op")
   | [op, k, v], some t =>
@@ -63,6 +64,20 @@ def step (s : Option Tr) (line : String) : Option Tr × String :=
         | none => (s, "bad-op")
       else (s, "bad-op")
     | _, _ => (s, "bad-op")
+  | ["cbsert", k, v, m], some t =>
+    match k.toNat?, v.toNat?, m.toNat? with
+    | some k, some v, some m =>
+      if k < 1024 && v < 256 && m < 5 then
+        -- the harness' callbacks: 0/4 = hand back a pair with value v, 1 = keep the existing pair,
+        -- 2 = fail, 3 = existing value + v; a new pair with value v for an absent key (except 2)
+        let f : Option Nat → Option Nat := fun o =>
+          if m == 2 then none else
+          match o with
+          | none => some v
+          | some v0 => if m == 1 then some v0 else if m == 3 then some ((v0 + v) % 256) else some v
+        let (t', r) := cbsert t k f; (some t', s!"r={showRes r} {dump t'}")
+      else (s, "bad-op")
+    | _, _, _ => (s, "bad-op")
   | ["delete", k], some t => match k.toNat? with
     | some k => if k < 1024 then
         let (t', ok) := delete t k; (some t', s!"r={if ok then "0" else "ENOENT"} {dump t'}")
@@ -72,6 +87,15 @@ def step (s : Option Tr) (line : String) : Option Tr × String :=
     | some k => if k < 1024 then
         (s, match search t k with | some v => s!"r={k}:{v}" | none => "r=ENOENT")
       else (s, "bad-op")
+    | none => (s, "bad-op")
+  | ["zip", n], some t => match n.toNat? with
+    | some n =>
+      -- two independent iterators in lockstep, then a fresh backward one (first two pairs), twice:
+      -- `hawk_rbt_getfirstpair` restarts an iterator whatever state it was left in
+      let (a, _) := iterN (getFirst t false) n
+      let (b, _) := iterN (getFirst t true) n
+      let (c, _) := iterN (getFirst t true) 1
+      (s, s!"w={showKvs a}|{showKvs b}|{showKvs c}|{showKvs c}")
     | none => (s, "bad-op")
   | ["clear"], some t => let t' := clear t; (some t', s!"r=ok {dump t'}")
   | ["walk"], some t => (s, s!"w={showKvs (walk t)}")
